@@ -446,8 +446,8 @@ def one_wf(r, tier, directed=None):
     return ops, tags
 
 
-def gen_wf(rng, tier, mult):
-    n = (1500 if tier == "quick" else 20000) * mult
+def gen_wf(rng, tier, mult, scale=1.0):
+    n = int((1500 if tier == "quick" else 20000) * mult * scale)
     cases = []
     for ci in range(n):
         r = rng.fork("wf%d" % ci)
@@ -708,7 +708,7 @@ MAL_KINDS = [("chunksize", 10), ("chunkline-long", 5), ("limit", 12), ("bighdr",
 
 
 def gen_mal(rng, tier, mult):
-    n = (2200 if tier == "quick" else 30000) * mult
+    n = (2200 if tier == "quick" else 36000) * mult
     cases = []
     for ci in range(n):
         r = rng.fork("mal%d" % ci)
@@ -784,9 +784,9 @@ def nontrivial(case):
     return n >= 20 and case[-1].startswith("run")
 
 
-def comp_wf(ctx):
+def comp_wf(ctx, scale=1.0):
     return vlib.Component(
-        "httpwf", "h_http.c", SRCS, ["http"], gen_wf, nontrivial=nontrivial,
+        "httpwf", "h_http.c", SRCS, ["http"], (lambda rng, tier, mult: gen_wf(rng, tier, mult, scale)), nontrivial=nontrivial,
         rule="well-formed responses: a response value (0..40 interim 1xx blocks, some longer than the final block; status line "
              "variants; 0..4000 headers with empty values / ':' inside / OWS; framing Content-Length | chunked (sizes 1..>1 MiB, "
              "extensions, trailers) | close; bodiless HEAD/204/304; body sizes 0, 1..8, around 4096, up to >1 MiB) is serialised "
